@@ -103,7 +103,11 @@ func (in *inst) open(e *exec) {
 	in.under = dbm.NewDB("s", in.typ, in.dir, in.counts)
 	in.view = in.under
 	if e.hasPref {
-		in.view = dbm.NewPrefixDB(in.under, e.prefix)
+		// the prefix slice gets spare capacity (as a slice cut from a larger buffer has): an adapter that appends to it
+		// without copying would alias the keys of one batch
+		pfx := make([]byte, len(e.prefix), len(e.prefix)+64)
+		copy(pfx, e.prefix)
+		in.view = dbm.NewPrefixDB(in.under, pfx)
 	}
 	in.batches = map[int]dbm.Batch{}
 }
